@@ -170,8 +170,9 @@ class String:
             except KeyError:
                 raise ParseError('Unexpected tag', tag)
         else:
-            # Var command
-            args = args and (f"{name} {args}") or name
+            # Var command: %(name ...)s, or the long form %(var name ...)s
+            if name != 'var' or not args:
+                args = args and (f"{name} {args}") or name
             return tag, args, Var, None
 
     @security.private
